@@ -204,8 +204,24 @@ def default_class(r):
     return re.sub(r"[0-9]+", "N", v)[:160]
 
 
+def trim_go_cache(min_free_gb=60, older_than_min=30):
+    """The labs compile thousands of throw-away packages; their build-cache entries are never
+    reused. When the disk runs low, drop cache entries not touched recently (ordinary cache
+    misses for Go). Runs detached; never blocks a check."""
+    try:
+        import shutil
+        if shutil.disk_usage("/").free > min_free_gb * (1 << 30):
+            return
+        cache = os.path.expanduser("~/.cache/go-build")
+        subprocess.Popen(["find", cache, "-type", "f", "-mmin", "+%d" % older_than_min, "-delete"],
+                         stdout=subprocess.DEVNULL, stderr=subprocess.DEVNULL)
+    except Exception:
+        pass
+
+
 class Check:
     def __init__(self, pid, level="proof"):
+        trim_go_cache()
         self.pid = pid
         self.level = level
         self.t0 = time.time()
